@@ -99,7 +99,7 @@ instance : TransCmp identCmp where
 /-- `(major, minor, patch, revision)` and the labels (`none` for a release) -/
 abbrev KeyV : Type := (Nat × Nat × Nat × Nat) × Option (List Ident)
 
-/-- the key of a `NugetVersion` value; `none` for the value `None` of `NugetVersion("")` -/
+/-- the key of a `NugetVersion` value; `none` for the (unconstructible) value `None` -/
 abbrev Key : Type := Option KeyV
 
 def numsCmp : Nat × Nat × Nat × Nat → Nat × Nat × Nat × Nat → Ordering :=
